@@ -37,6 +37,8 @@ def hist_to_ops(hist: list) -> list[dict]:
             ops.append({"op": "min", "n": h[1], "size": h[2], "skip": bool(h[3])})
         elif k == "aseeds":
             ops.append({"op": "aseeds", "size": h[1]})
+        elif k == "block":
+            ops.append({"op": "block", "maa": bool(h[1]), "size": h[2], "optsrc": bool(h[3]), "exact": False})
         elif k == "skipmin":
             ops.append({"op": "skipmin", "n": h[1]})
         elif k == "skiprem":
@@ -228,6 +230,10 @@ def gadget_networks() -> dict[str, list[list[int]]]:
     g["nscc"] = bn.from_exprs(3, [lambda s: s[1], lambda s: s[0] or s[2], lambda s: s[0] and s[2]])
     g["nscc_latch"] = bn.disjoint_union(g["nscc"], g["latch"])
     g["nscc2"] = bn.disjoint_union(g["nscc"], g["nscc"])
+    # one strongly connected module whose motif-avoidant attractor lives in an inner trap space (x = y = 1), plus a switch
+    g["maa_inner"] = bn.from_exprs(4, [lambda s: s[1] or (s[2] and s[3]), lambda s: s[0],
+                                       lambda s: (s[2] == s[3]) and s[0], lambda s: (s[2] == s[3]) and s[0]])
+    g["maa_inner_latch"] = bn.disjoint_union(g["maa_inner"], g["latch"])
     g["xnor_latch"] = bn.disjoint_union(g["xnor2"], g["latch"])
     g["xnor_2latch"] = bn.disjoint_union(g["xnor_latch"], g["latch"])
     g["xnor_3latch"] = bn.disjoint_union(g["xnor_2latch"], g["latch"])
